@@ -80,7 +80,7 @@ func Run(o *hx.Opts, w *lineio.Writer) error {
 	mp := MaxPayloadOrDocumented()
 	var jobs []Job
 	r := o.Rand(10)
-	for i := 0; i < o.N(140, 2500); i++ {
+	for i := 0; i < o.N(220, 2500); i++ {
 		jobs = append(jobs, RandomTraffic(r, mp, i))
 	}
 	// sequential scripts on the same model: receive side in detail, boundary and excluded points
